@@ -59,13 +59,12 @@ CHECKS = {
         category='fault_enumeration', design_ref='DESIGN.md section 2, C17',
         technique='boundary fault enumeration with unique-sector attribution of every output block and V/S hook limit invariant',
         text='Catalogue entries ending boundary-2..boundary+3 sectors around the end of every Opus volume A-H, each '
-             'side of dsd/ddd, one-sided images and MMB slots; type --binary, dump and extract-files are judged: no '
+             'side of dsd/ddd and of two-sided HFE/HxC flux images, one-sided images and MMB slots; type --binary, dump and extract-files are judged: no '
              'output block (full or partial) may equal a container sector outside the region, overruns must fail '
              'with a diagnostic, fitting entries must be delivered; the Volume/FileView hook records must never be '
              'forwarded at or past the limit.  The run is inconclusive unless reads beyond a limit were observed in '
-             'all four contexts.',
-        note='Surfaces above 1023 sectors cannot be overrun at the surface end by a 10-bit start sector; flux '
-             'surfaces are covered by C05/C06.'),
+             'all five contexts.',
+        note='Surfaces above 1023 sectors cannot be overrun at the surface end by a 10-bit start sector.'),
     'C03': dict(
         category='exploration', design_ref='DESIGN.md section 2, C03',
         technique='reference-model monitor: lister written from doc/bbcbasic.5 vs bbcbasic_to_text output on generated programs',
